@@ -355,7 +355,7 @@ def _covered_by_earlier_refusals(ctx, engine, f, canon_stmt, sites):
 
 
 @rule('SA-SIB.query_twin')
-@props('C14')
+@props('C08', 'C13', 'C14')
 def query_twin(ctx):
     """A query method that exists so that callers can ask "would the insertion refuse?" before they change anything
     raises every PyCdlibInvalidInput message the insertion raises (a refusal added to the insertion alone re-opens the
@@ -377,6 +377,21 @@ def query_twin(ctx):
             obs.append(Ob('SA-SIB.query_twin', '%s|%s' % (qry, str(m)[:60]), ok, ctx.loc(fi, node),
                           '' if ok else '%s refuses with %r but %s, which callers use to ask before they change anything, does not: that refusal still arrives '
                           'after the first change' % (ins, m, qry)))
+        # a linear scan that looks for a clashing entry has to see every entry: no break / return inside a loop of the
+        # query method whose body holds a refusal (the insert method may stop early because it starts at a bisected
+        # position; the query starts at the beginning)
+        for loop in ctx.own_nodes(fq):
+            if not isinstance(loop, ast.For):
+                continue
+            if not any(isinstance(x, ast.Raise) and raises_class(x) == 'PyCdlibInvalidInput' for st in loop.body for x in ast.walk(st)):
+                continue
+            starts_bisected = any(isinstance(x, ast.Call) and 'bisect' in norm(x.func) for x in ast.walk(loop.iter))
+            early = [x for st in loop.body for x in ast.walk(st) if isinstance(x, (ast.Break, ast.Return))]
+            ok = not early or starts_bisected
+            obs.append(Ob('SA-SIB.query_twin', '%s|scan over %s is exhaustive' % (qry, norm(loop.iter)[:40]), ok, ctx.loc(fq, early[0] if early else loop),
+                          '' if ok else 'the loop over `%s` that looks for a clashing entry leaves at line %d before it has seen every entry (and does not start at a '
+                          'bisected position): a clash further along is not reported here, the insertion refuses it later - after the caller has started changing things'
+                          % (norm(loop.iter), early[0].lineno)))
     if not obs:
         raise AnalysisError('anchor-vanished: query twins')
     return obs
